@@ -6,6 +6,7 @@ package main
 
 import (
 	"bufio"
+	"crypto/sha256"
 	"fmt"
 	"io"
 	"os"
@@ -50,6 +51,7 @@ type queryAnswer struct {
 	resps    []types.Response
 	fees     []sdk.Coins
 	params   []types.Params
+	schemas  []string
 }
 
 // query runs one query op on the main context (a query that wrote to the store
@@ -186,6 +188,11 @@ func (s *Sim) queryGRPC(kind string, a queryArgs) (*queryAnswer, string) {
 		if r, err = srv.Params(c, &types.QueryParamsRequest{}); err == nil {
 			ans.params = append(ans.params, r.Params)
 		}
+	case "schema":
+		var r *types.QuerySchemaResponse
+		if r, err = srv.Schema(c, &types.QuerySchemaRequest{SchemaName: a.svc}); err == nil {
+			ans.schemas = append(ans.schemas, r.Schema)
+		}
 	}
 	if err != nil {
 		return nil, grpcErrName(err)
@@ -239,6 +246,8 @@ func (s *Sim) queryLegacy(kind string, a queryArgs) (*queryAnswer, string) {
 		route, params = types.QueryEarnedFees, types.QueryEarnedFeesParams{Provider: a.prov}
 	case "params":
 		route = types.QueryParameters
+	case "schema":
+		route, params = types.QuerySchema, types.QuerySchemaParams{SchemaName: a.svc}
 	}
 	var data []byte
 	if params != nil {
@@ -289,6 +298,10 @@ func (s *Sim) queryLegacy(kind string, a queryArgs) (*queryAnswer, string) {
 		var p types.Params
 		err = amino.UnmarshalJSON(bz, &p)
 		ans.params = append(ans.params, p)
+	case "schema":
+		var sch string
+		err = amino.UnmarshalJSON(bz, &sch)
+		ans.schemas = append(ans.schemas, sch)
 	}
 	if err != nil {
 		debugf("legacy %s: answer %s does not decode: %v", kind, bz, err)
@@ -356,6 +369,17 @@ func (s *Sim) answerLines(kind string, a queryArgs, ans *queryAnswer) []string {
 	}
 	for _, p := range ans.params {
 		add(recParams(p))
+	}
+	for _, sch := range ans.schemas {
+		// the two system schemas are constants of the module: the answer is named by the constant it equals
+		switch sch {
+		case types.PricingSchema:
+			add("SCH pricing")
+		case types.ResultSchema:
+			add("SCH result")
+		default:
+			add(fmt.Sprintf("SCH other:%x", sha256.Sum256([]byte(sch))))
+		}
 	}
 	sort.Strings(lines)
 	return lines
